@@ -267,7 +267,7 @@ def _worker(job):
     prop = props.PROPERTIES[pid]()
     u = prop.units[ui]
     if vi is not None:
-        u.contract.variants = [u.contract.variants[vi]]
+        u.only = vi
     out = []
     try:
         rs = u.run(index, tier, seed)
